@@ -99,6 +99,29 @@ def createReplacement (w : World) (oid : Nat) (newPrice size : Rat) (created : T
   let t := w.trade! o.trade
   (({ w with orders := w.orders ++ [r] }).setTrade { t with orders := t.orders ++ [nid] }, nid)
 
+/-- the place half of a simulated replace, after the cancel half succeeded: the old order completes, a
+    replacement order is created and placed at once (`market.place_order(..., execute=False)`) -/
+def replacePlace (p : Package) (w : World) (o : Order) (oid : Nat) (book : Book) (newPrice : Option Rat)
+    (sizeCancelled : Rat) (failed : Nat) : World × Nat :=
+  let w := (w.orderExecutionComplete oid).bumpBetId
+  let cr := w.createReplacement oid (newPrice.getD 0) sizeCancelled p.created
+  let rid := cr.2
+  let w := cr.1
+  let r := w.order! rid
+  let c := w.client! p.client
+  let runner := (runnerOf book r.sel r.hc).getD { sel := r.sel }
+  let pr := r.sim.place p.marketVersion c.bpe (w.client! (r.client.getD 0)).fullMatch book.view runner.view false none w.betId
+  let w := w.modifyOrder rid fun x => { x with sim := pr.1 }
+  match pr.2.status with
+  | .success =>
+    let w := w.modifyOrder rid fun x => { x with placedAt := some w.clock, betId := pr.2.betId }
+    let w := w.emit (.orderEvent rid)
+    -- market.place_order(replacement, execute=False, client=order.client)
+    let tp := w.txnPlace { market := p.market, client := o.client.getD ((w.clients.head?.map (·.id)).getD 0) } rid none false false
+    let w := tp.1.orderExecutable rid
+    (w.tradeExit o.trade, failed)
+  | .failure => (((w.orderExecutionComplete rid).orderExecutable oid).tradeExit o.trade, failed)
+
 /-- the body of the `execute_replace` loop for one (order, instruction) pair -/
 def replaceStep (p : Package) (acc : World × Nat) (pr : Nat × Option Rat) : World × Nat :=
   let (w, failed) := acc
@@ -107,29 +130,11 @@ def replaceStep (p : Package) (acc : World × Nat) (pr : Nat × Option Rat) : Wo
   let w := w.tradeEnter o.trade
   let book := ((w.market! p.market).book).getD {}
   let red := if o.ud.hasReduction then o.ud.sizeReduction else none
-  let (sim', cresp) := o.sim.cancel book.status red
-  let w := w.modifyOrder oid fun o => { o with sim := sim', cancelResponses := o.cancelResponses + 1 }
-  match cresp.status with
+  let cr := o.sim.cancel book.status red
+  let w := w.modifyOrder oid fun o => { o with sim := cr.1, cancelResponses := o.cancelResponses + 1 }
+  match cr.2.status with
   | .failure => ((w.orderExecutable oid).tradeExit o.trade, failed + 1)
-  | .success =>
-    let w := w.orderExecutionComplete oid
-    let w := { w with betId := w.betId + 1 }
-    let (w, rid) := w.createReplacement oid (newPrice.getD 0) cresp.sizeCancelled p.created
-    let r := w.order! rid
-    let c := w.client! p.client
-    let runner := (runnerOf book r.sel r.hc).getD { sel := r.sel }
-    let (rsim, resp) := r.sim.place p.marketVersion c.bpe (w.client! (r.client.getD 0)).fullMatch book.view runner.view
-      false none w.betId
-    let w := w.modifyOrder rid fun x => { x with sim := rsim }
-    match resp.status with
-    | .success =>
-      let w := w.modifyOrder rid fun x => { x with placedAt := some w.clock, betId := resp.betId }
-      let w := w.emit (.orderEvent rid)
-      -- market.place_order(replacement, execute=False, client=order.client)
-      let (w, _, _) := w.txnPlace { market := p.market, client := o.client.getD ((w.clients.head?.map (·.id)).getD 0) } rid none false false
-      let w := w.orderExecutable rid
-      (w.tradeExit o.trade, failed)
-    | .failure => (((w.orderExecutionComplete rid).orderExecutable oid).tradeExit o.trade, failed)
+  | .success => replacePlace p w o oid book newPrice cr.2.sizeCancelled failed
 
 /-- `SimulatedExecution.execute_replace`; instructions come from `replace_instructions`, which skips
     EXECUTION_COMPLETE orders, and are zipped *positionally* with the (unfiltered) package orders -/
